@@ -7,11 +7,14 @@ defect).  PlanCache.tla Confined and MC_Random cover cache and generator confine
 Conformance: (1) forced schedules — the interleavings of Mid/End steps of two solves on a shared composite-length plan are
 imposed on the real threads by a cooperative scheduler parked at the DSPLIB_VERIF yield points (right after the scratch is
 written), likewise interleavings of generator calls of two threads and of cache lookups of two threads; executed steps and
-results are validated by Trace_Threads against Threads.tla (per-call scratch): every result must equal the sequential one.
+results are validated by Trace_Threads against Threads.tla (per-call scratch): every result must equal the sequential one; in addition EVERY maximal path of the TLC state graph of
+Threads.tla for 3 threads x 1 solve and 2 threads x 2 solves (1680 + 924 behaviours, exported with -dump dot,actionlabels) is
+imposed on real threads and the executed steps are validated with the actions of Threads.tla itself.
 (2) free-running stress from a barrier (rel build and ThreadSanitizer build): shared FftPlan / FftPlanR / IfftPlan /
 IfftPlanR / CztPlan of every plan kind, random mixes of fft/ifft/rfft/irfft (cache hits and evictions), xcorr, FftFilter,
 welch, resample, randn/rng, windows, hilbert, czt: every result compared with the single-threaded one; a plan cache touched
-by two threads is counted through the cache hook; a ThreadSanitizer report is an event without action."""
+by two threads is counted through the cache hook; the first use of the number-theory helpers in the process is concurrent
+(cold start), judged against the driver's own trial division; a ThreadSanitizer report is an event without action."""
 import os
 import re
 from . import core, simple, tlcgraph
